@@ -27,9 +27,9 @@ RULE = {
 REQUIRED = {
     "C05": {"iteration:teleop": 500, "iteration:auto": 500, "iteration:disabled": 500, "iteration:test": 300,
             "timing-checked": 2000, "overrun-catchup": 30, "mode-string-checked": 2000, "teleop-in-auto-iteration": 100,
-            "inherited-robot-class": 50, "fault-in-iteration-body-swallowed": 20},
+            "inherited-robot-class": 50, "fault-in-iteration-body-swallowed": 20, "statemachine-component": 100},
     "C06": {"transition:teleop->auto": 20, "transition:auto->teleop": 20, "transition:teleop->disabled": 30,
-            "transition:disabled->teleop": 30, "transition:auto->test": 10, "setup-checked": 300, "lifecycle-fault-swallowed": 30, "end:teleop": 10, "end:auto": 10,
+            "transition:disabled->teleop": 30, "transition:auto->test": 10, "setup-checked": 300, "lifecycle-fault-swallowed": 30, "statemachine-component": 100, "end:teleop": 10, "end:auto": 10,
             "end:disabled": 10, "end:test": 10},
     "C07": {"swallowed:execute": 20, "swallowed:on_enable": 10, "swallowed:on_disable": 10, "swallowed:robotPeriodic": 10,
             "swallowed:teleopPeriodic-in-auto": 5, "swallowed:feedback": 10, "swallowed:mode.on_iteration": 5,
@@ -38,7 +38,7 @@ REQUIRED = {
     "C10": {"assign-enabled": 500, "reset-checked-at-arrival": 2000, "assign-disabled-dontcare": 50, "sentinel-assign": 50,
             "fault-in-reset-iteration": 20, "snapshot-checked": 20000,
             "marker-redeclared-in-subclass": 30, "marker-shadowed-by-plain-attribute": 30, "two-components-one-class": 50,
-            "private-named-marker": 30},
+            "private-named-marker": 30, "identity-only-default": 30},
     "C11": {"feedback-value-checked": 5000, "feedback-type-checked": 5000, "raised-getter-unchanged": 20,
             "hint:int": 50, "hint:float": 50, "hint:bool": 50, "hint:str": 50, "hint:int[]": 20, "hint:rot": 20, "hint:none": 50,
             "explicit-key": 50, "get_-prefix-stripped": 50, "mode:disabled": 200, "mode:test": 100,
@@ -80,6 +80,8 @@ def gen_case(rng, pid, uid):
              "resets": [], "sentinels": [], "feedbacks": [], "inject": []}
         for j in range(rng.choice([0, 1, 1, 2, 3]) if pid == "C10" else rng.choice([0, 0, 1, 2])):
             r = {"attr": f"r{j}" if rng.random() < 0.8 else f"_r{j}", "default": rng.choice(defaults), "inherited": rng.random() < 0.3}
+            if rng.random() < 0.12:
+                r["default"] = {"$sentinel": rng.randrange(4)}     # UNSET = object(): a default that only has identity
             if not r["inherited"] and rng.random() < 0.25:
                 r["base_default"] = rng.choice([d for d in defaults if d != r["default"] or type(d) is not type(r["default"])])
             c["resets"].append(r)
@@ -94,11 +96,15 @@ def gen_case(rng, pid, uid):
         for other in cnames:
             if other != cn and rng.random() < 0.25:
                 c["inject"].append(other)
+        if pid in ("C05", "C06") and rng.random() < 0.2:
+            c["is_sm"] = True
+            c["has_on_enable"] = c["has_on_disable"] = True
         comps[cn] = c
     if n >= 2 and rng.random() < (0.35 if pid == "C10" else 0.2):
         # two components that are instances of ONE class (`left: Shooter; right: Shooter`)
         import copy
         a, b = rng.sample(cnames, 2)
+        comps[a].pop("is_sm", None)
         comps[b] = copy.deepcopy(comps[a])
         comps[b]["same_class_as"] = a
         for cn in (a, b):
@@ -586,7 +592,10 @@ def check_resets(spec, run, V, acc):
     tracked = []
     for cn, c in comps.items():
         for r in c["resets"]:
-            tracked.append((cn, r["attr"], True, r["default"]))
+            from .robot_rt import resolve
+            tracked.append((cn, r["attr"], True, resolve(r["default"])))
+            if isinstance(r["default"], dict):
+                V.ev("identity-only-default")
             if "base_default" in r:
                 V.ev("marker-redeclared-in-subclass")
             if r["attr"].startswith("_"):
@@ -832,6 +841,8 @@ def run_case(spec, acc):
         check_feedbacks(spec, run, V, acc)
     if len(spec["robot_classes"]) > 1 and any(rc["components"] for rc in spec["robot_classes"][1:]):
         V.ev("inherited-robot-class")
+    if any(c.get("is_sm") for c in spec["components"].values()):
+        V.ev("statemachine-component")
     return run, V
 
 
